@@ -42,10 +42,18 @@ def run(chk):
     chk.trusted = ["Lean 4.33 kernel", "axioms ⊆ {propext, Classical.choice, Quot.sound}", "GE/Spec/JsGrammar.lean",
                    "reference renderer checklib/tmplgen.py (the executable reading of the WXML semantics)", "node runner + stub backend (native nodes, static slot mode)",
                    "V8"]
-    chk.assumptions = ["dynamic-slot mode and component nodes are not exercised (stub backend)",
-                       "the Lean part proves branch selection and name normalisation; the end-to-end refinement create_refines is covered by the oracle only (partial)"]
-    chk.model_tie([("GE.Thm.C04", THEOREMS)])
+    chk.assumptions = ["components are stubs with declared properties / external classes; dynamic-slot content is not part of this check's reference (C06 / C07 run it)",
+                       "PARTIAL: creation_denotes (GE/Thm/C04Tag.lean) proves, over the tag-level model GE/Model/TagSem.lean (text, elements with plain attributes, "
+                       "<block>, wx:if / elif / else chains, wx:for without key; expressions abstract), that the elements and text nodes creation builds are, in "
+                       "document order, exactly the ones the template denotes; the model is compared with the real compiler + runtime on generated templates and "
+                       "data (corr:tagsem: structure, attribute values, branch keys, list indexes, node reuse). Template-is / include / slot, the other attribute "
+                       "families and the generated JavaScript text between template and runtime are covered by the reference-render oracle only; the Lean part also "
+                       "proves the branch selector statement and name normalisation"]
+    chk.model_tie([("GE.Thm.C04", THEOREMS), ("GE.Thm.C04Tag", ["GE.TagSem.creation_denotes", "GE.TagSem.create_denotes", "GE.TagSem.firstTrue_range"])])
     rng = chk.rng.fork("c04")
+    # the tag-level model (creation_denotes is about it) vs the real compiler + runtime: the node tree after creation (and after updates)
+    from . import tagsem
+    tagsem.stream(chk, chk.rng.fork("tagsem"), 200 if quick else 4000)
     # ---- names: model vs hook -----------------------------------------------------------------
     names = ["a", "a-b", "a-b-c", "-a", "a-", "a--b", "A-b", "a-B", "x1-2y", "é-ü", "a.b-c", "hover-class", "data-a-b", "_-_", "-", "--", ""]
     for i in range(200 if quick else 3000):
